@@ -228,6 +228,10 @@ func buildPhases() []phase {
 			})
 			// re-use of a pack object: encode, change fields, encode again (classes.go)
 			x.batches(x.base*sp.n/100/25, func() job { return reuseJob(sp, x.g) })
+			// deterministic sweep: every byte-string leaf × every special-content value (special.go)
+			sweep := specialSweepJobs(sp, x.g)
+			si := 0
+			x.batches(len(sweep), func() job { si++; return sweep[si-1] })
 		}})
 	}
 	// containers and record lists
@@ -263,6 +267,7 @@ func describe(rep *vh.Report) {
 		"(integer boundaries of every width, float bit patterns incl. NaN payloads, strings of length 0..70000 with arbitrary bytes, " +
 		"nil vs empty vs populated optional sections, tables of 0..300 rows, all 20 value types nested to depth 3, both header forms, " +
 		"nested packs to depth 3); containers and record lists with 0..300 items, record lists also at the 16-bit count boundaries 0,1,255,256,32767,32768,65535, " +
+		"every string/blob drawn from a pool of special content (binary and text addresses incl. IPv4-mapped/-compatible 16-byte forms, lengths 0..32, UTF-8 edge cases, numeric-looking text, blanks, NULs) with 18 % probability, plus a deterministic sweep byte-string leaf x pool value per type; " +
 		"compressed container payloads of 1, 8-, 8+ and 20 MiB; every type also re-used (encode, change scalar fields incl. back to zero, encode again vs a fresh pack; repeat encoding; buffer aliasing); " +
 		"non-trivial = the encoding is longer than the bare type tag + header; distinct = distinct type+field dumps"
 	rep.Note("format caps respected by the generators (limits of the wire format, not defects): HitMapPack1.Hit/Error carried as unsigned 16 bit (values 0..65535, exactly 120 slots); " +
